@@ -513,6 +513,9 @@ class IPAddr6 (_AddrBase):
             #  raise RuntimeError("Bad address format " + str(addr))
           side = 1
           continue
+        if s.strip("0123456789abcdefABCDEF"):
+          # int() tolerates signs, "0x", "_" and whitespace; an address doesn't
+          raise RuntimeError("Bad address format " + str(addr))
         s = int(s,16)
         if s < 0 or s > 0xffff:
           # Each chunk must be at most 16 bits!
